@@ -247,6 +247,8 @@ class Engine:
             dec = self.trail[i][0]
             if self.trail[i][2] is not None and i == len(self.trail) - 1:
                 self.model = self.trail[i][2]
+            elif self.model is not None and self._model_says(cond if dec else z3.Not(cond)) is not True:
+                self.model = None   # a model obtained by an earlier assume() does not follow this replayed decision
         else:
             if self.frontier_depth is not None and i >= self.frontier_depth:
                 raise Frontier()
@@ -289,7 +291,7 @@ class Engine:
             self.stats["discharged"] += 1
             return True
         neg = z3.Not(cond)
-        if self._model_says(neg) is True:
+        if self._model_says(neg) is True and self._model_ok():
             r = "sat"
         else:
             r, _ = self._solve(list(self.pc) + [neg], want_model=False)
@@ -301,9 +303,28 @@ class Engine:
         self.cex.append(dict(label=label, pc=list(self.pc), neg=neg, cf_apps=list(self.cf_apps)))
         return False
 
+    def _model_ok(self):
+        """The carried model really satisfies the whole path condition (evaluation only)."""
+        for c in self.pc:
+            try:
+                if not z3.is_true(z3.simplify(self.model.eval(c, model_completion=True))):
+                    self.model = None
+                    return False
+            except z3.Z3Exception:
+                self.model = None
+                return False
+        return True
+
     def fail(self, label):
         """Obligation stated in Python over proxies failed on this (feasible) path."""
         self.stats["obligations"] += 1
+        if not (self.model is not None and self._model_ok()):
+            r, m = self._check()
+            if r == "unsat":
+                raise Unsupported("engine inconsistency: infeasible path reached an obligation")
+            if r == "unknown":
+                raise Unsupported("solver unknown while confirming the feasibility of a failing path")
+            self.model = m
         self.cex.append(dict(label=label, pc=list(self.pc), neg=None, cf_apps=list(self.cf_apps)))
 
     def ok(self, n=1):
@@ -815,16 +836,23 @@ class SymStr:
         if isinstance(k, slice):
             if k.step not in (None, 1):
                 raise Unsupported("slice step")
+            eng = E()
 
-            def norm(v, default):
-                if v is None:
-                    return default
+            def clamp(v):
+                """Python's slice index normalisation, by case split (keeps the terms free of ite)."""
                 v = _i(v)
-                return z3.If(v < 0, z3.If(v + n < 0, 0, v + n), z3.If(v > n, n, v))
-            lo = norm(k.start, z3.IntVal(0))
-            hi = norm(k.stop, n)
-            ln = z3.If(hi > lo, hi - lo, 0)
-            return SymStr(z3.simplify(z3.SubString(self.e, lo, ln)))
+                if eng.branch(v < 0):
+                    return v + n if eng.branch(v + n >= 0) else z3.IntVal(0)
+                return v if eng.branch(v <= n) else n
+            lo = z3.IntVal(0) if k.start is None else clamp(k.start)
+            if k.stop is None:
+                return SymStr(z3.simplify(z3.SubString(self.e, lo, n - lo)))
+            hi = clamp(k.stop)
+            if k.start is None:
+                return SymStr(z3.simplify(z3.SubString(self.e, 0, hi)))
+            if not eng.branch(hi >= lo):
+                return ""
+            return SymStr(z3.simplify(z3.SubString(self.e, lo, hi - lo)))
         i = _i(k)
         i = z3.If(i < 0, i + n, i)
         if not E().branch(z3.And(i >= 0, i < n)):
